@@ -163,6 +163,9 @@ pub struct PreemptPlan {
 
 #[derive(Default)]
 pub struct ThreadCtx {
+    /// re-entrancy point: at the first scalar event at or after this index the
+    /// registered closure runs (a nested call into the library from a callback)
+    pub reenter_at: Option<u64>,
     pub active: bool,
     pub tid: usize,
     pub sched: Option<Arc<Sched>>,
@@ -218,6 +221,7 @@ pub fn begin_op(faults: Vec<Fault>, record_trace: bool, cap: u64) {
     TL.with(|c| {
         let mut c = c.borrow_mut();
         c.op_ev = 0;
+        c.reenter_at = None;
         c.faults = faults;
         c.fired.clear();
         c.trace_hash = 0x5eed;
@@ -246,6 +250,20 @@ pub fn thread_counters() -> (u64, u64, u64, u64, u64) {
         let c = c.borrow();
         (c.thr_ev, c.preempt_offers, c.rng_draws, c.log_writes, c.hash_keys)
     })
+}
+
+thread_local! {
+    static REENTER: RefCell<Option<Box<dyn FnOnce()>>> = const { RefCell::new(None) };
+}
+/// register a nested call for the current operation (call after `begin_op`)
+pub fn set_reenter(at: u64, f: Box<dyn FnOnce()>) {
+    REENTER.with(|r| *r.borrow_mut() = Some(f));
+    TL.with(|c| c.borrow_mut().reenter_at = Some(at));
+}
+/// the closure if it never ran
+pub fn take_reenter() -> Option<Box<dyn FnOnce()>> {
+    TL.with(|c| c.borrow_mut().reenter_at = None);
+    REENTER.with(|r| r.borrow_mut().take())
 }
 
 /// The funnel.  Returns the (possibly faulted) result bits.
@@ -278,6 +296,25 @@ pub fn event(k: u8, a: u64, b: u64, r: u64) -> u64 {
         c.op_ev += 1;
         let tidx = c.thr_ev;
         c.thr_ev += 1;
+        if let Some(at) = c.reenter_at {
+            if idx >= at && (kind::is_arith(k) || k == kind::CMP || k == kind::EQ) {
+                // a nested call into the library from inside this callback, on this
+                // thread, while the outer call is in flight; its own seam events
+                // pass through (no counting, no preemption, no faults)
+                c.reenter_at = None;
+                c.active = false;
+                drop(c);
+                let f = REENTER.with(|r| r.borrow_mut().take());
+                if let Some(f) = f {
+                    f();
+                }
+                c = match cell.try_borrow_mut() {
+                    Ok(c) => c,
+                    Err(_) => return r,
+                };
+                c.active = true;
+            }
+        }
         match k {
             kind::RNG => c.rng_draws += 1,
             kind::LOG => c.log_writes += 1,
